@@ -4,5 +4,6 @@ CONSTANTS
   Space = "sim"
   Modes = {"E"}
   EmitCases = TRUE
+  PeekBudget = 0
 INVARIANTS Inv_Ctx Inv_End Inv_Conform
 CHECK_DEADLOCK FALSE
